@@ -26,6 +26,7 @@
 (*   IgnoreStaleAck     client in SEGMENTED_CONFIRMATION ignores a stale   *)
 (*                      server SegmentAck instead of aborting              *)
 (*   FinalAckAnyInWindow  any in-window ack ends a fully sent transfer     *)
+(*   EchoClientAbort      the server sends a client's abort back to it     *)
 (***************************************************************************)
 EXTENDS Naturals, Sequences, FiniteSets, TLC
 
@@ -40,6 +41,8 @@ CONSTANTS NQ, NR,            \* number of request / response segments (1 = unseg
           ResendSeg0OnNoWin, IndexFromSeq, IgnoreStaleAck,
           IdleAcceptsAnySeq,   \* TRUE: a segmented request whose first received segment is not number 0 starts a
                                \* transaction all the same -- the pinned tree (finding F25); FALSE: it is answered with an abort
+          EchoClientAbort,     \* TRUE: a server transaction that receives the client's abort while it collects the request
+                               \* or sends the response hands that abort back to the wire (the pinned tree, F42)
           FinalAckAnyInWindow, \* TRUE: once all segments were sent ANY in-window segment ack (even a negative one
                                \* for an earlier segment) is taken for the final ack -- the pinned tree (finding F24)
           MaxNow             \* state constraint for configurations with unbounded deviations
@@ -219,7 +222,8 @@ S_idle(f) ==
 
 S_segmented_request(f) ==
    /\ s.st = "SEG_REQ"
-   /\ IF f.k = "ABT" THEN s' = STerminal("GONE") /\ tx' = <<[f EXCEPT !.dir = "sc", !.at = now]>> /\ UNCHANGED <<sInd, sApp>>
+   /\ IF f.k = "ABT" THEN s' = STerminal("GONE") /\ tx' = (IF EchoClientAbort THEN <<[f EXCEPT !.dir = "sc", !.at = now]>> ELSE <<>>)
+                           /\ UNCHANGED <<sInd, sApp>>
       ELSE IF f.k # "CR" \/ ~f.seg THEN s' = STerminal("GONE") /\ tx' = <<Abt("sc", TRUE)>> /\ UNCHANGED <<sInd, sApp>>
       ELSE IF f.seq # (s.last + 1) % SeqMod
         THEN /\ s' = [s EXCEPT !.ddl = now + Tseg * RecvMult]
@@ -270,7 +274,7 @@ S_segmented_response(f) ==
                   /\ s' = [s EXCEPT !.win = f.win, !.init = nsq, !.segRetry = 0, !.ddl = now + Tseg, !.base = nbase,
                                     !.sentAll = (s.sentAll \/ (Len(fs) > 0 /\ ~fs[Len(fs)].mor))]
                   /\ tx' = fs
-      ELSE IF f.k = "ABT" THEN s' = STerminal("GONE") /\ tx' = <<[f EXCEPT !.dir = "sc", !.at = now]>>
+      ELSE IF f.k = "ABT" THEN s' = STerminal("GONE") /\ tx' = (IF EchoClientAbort THEN <<[f EXCEPT !.dir = "sc", !.at = now]>> ELSE <<>>)
       ELSE tx' = <<>> /\ UNCHANGED s
    /\ UNCHANGED <<sInd, sApp>>
 
